@@ -441,6 +441,11 @@ def rule_forms(check, rule):
                 elif v[0] == 'O' or (v[0] == 'C' and 'PokTranslator' in str(v[1])):
                     ce = [e for e in p.effects if e.kind == 'call' and e.result == v]
                     kws = dict(ce[0].kws) if ce else kws
+                    if ce:
+                        # (arguments are kept in one spelling: by position where they continue the positional ones)
+                        init_ = repo.func(PT + '.__init__')
+                        for pn, a_ in zip(init_.params()[0][1:], ce[0].args):
+                            kws.setdefault(pn, a_)
                     if want_kw in kws and kws[want_kw][0] == 'SET':
                         check.holds(rule, site_of(fi, fi.node), '%s: _PokTranslator(func, %s=<selected names>)' % (fname, want_kw), key=key)
                     else:
